@@ -31,7 +31,37 @@ def run(ctx):
                 docs.append(d)
             except UnicodeDecodeError:
                 pass
-    for t in ["﻿é = 'é'\r\n", "\"é\".'ü' = [ 'x' , {a.b = \"😀\"} ] # é\n", "[é.\"ü\"]\r\nk = 1\r\n[[a.b]]\n[[a.b]]\nz = {}\n", "a.b.c = 1\na.b.d = 2\n[x]\n[x.y.z]\n"]:
+    for t in ["﻿é = 'é'\r\n", "\"é\".'ü' = [ 'x' , {a.b = \"😀\"} ] # é\n", "[é.\"ü\"]\r\nk = 1\r\n[[a.b]]\n[[a.b]]\nz = {}\n", "a.b.c = 1\na.b.d = 2\n[x]\n[x.y.z]\n",
+              # tables without a span of their own whose entries interleave (the synthesized Spanned span must cover all of them)
+              "a.b.x = 1\na.c = 2\na.b.y = 3\n", "a.b.x = 1 # é\r\na.c = 'ü'\r\n\r\na.b.y = 3\r\n", "t = { a.b.x = 1, a.c = 2, a.b.y = 3 }\n",
+              "[a.b.x]\nk = 1\n[a.c]\nk = 2\n[a.b.y]\nk = 3\n", "[[a.b]]\nk = 1\n[a.c]\nk = 2\n[[a.b]]\nk = 3\n", "[r]\na.b.x = 1\na.c.z = 2\na.b.y = 3\na.c.w = 4\n",
+              "[[r]]\np.q.a = 1\np.s = 2\np.q.b = [1, 2]\n[[r]]\np.q.a = 1\n"]:
+        docs.append(t.encode())
+    # interleaved definitions of span-less tables: leaves of a small key tree in random order, as dotted keys (root, below a
+    # header, inside an inline table) or as headers
+    def leaf_paths():
+        out = []
+        def walk(pre, d):
+            for k in rng.sample(["a", "b", "c", "'é'"], rng.choice([2, 2, 3])):
+                if d == 0 or (d < 2 and rng.random() < 0.3):
+                    out.append(pre + [k])
+                else:
+                    walk(pre + [k], d - 1)
+        walk([], rng.choice([1, 2, 2]))
+        rng.shuffle(out)
+        return out[: rng.choice([3, 4, 6])]
+    for _ in range(20000 if big else 1500):
+        ps = leaf_paths()
+        eol = rng.choice(["\n", "\n", "\r\n"])
+        form = rng.randrange(4)
+        if form == 0:
+            t = "".join(f"{'.'.join(q)} = {i}{eol}" for i, q in enumerate(ps))
+        elif form == 1:
+            t = rng.choice(["[r]", "[[r]]", "[r.s]"]) + eol + "".join(f"{'.'.join(q)} = {i} # c{eol}" for i, q in enumerate(ps))
+        elif form == 2:
+            t = "t = { " + ", ".join(f"{'.'.join(q)} = {i}" for i, q in enumerate(ps)) + " }" + eol
+        else:
+            t = "".join(f"{rng.choice(['[%s]', '[[%s]]']) % '.'.join(q + ['h'])}{eol}k = {i}{eol}" for i, q in enumerate(ps))
         docs.append(t.encode())
     lines = [h(d) for d in docs]
     impl, model = run_pair(ctx, tvh, "c14", lines)
